@@ -75,3 +75,19 @@ chk("C28", "E1", "exploration",
     "deterministic simulation: report histories on a virtual clock (gaps around the five-minute window, several probe kinds per relay, latencies around the two-thirds threshold) against a reference model of the statement",
     "Seeded exploration of 1..8-report histories through the real add_report_history_and_set_preferred_relay on the paused clock; per report the chosen relay must be one measured in that report, be best over the last five minutes, and may differ from the previous choice only if at most two thirds of the previous relay's lowest latency in the current report (ties and exact-threshold rounding accepted either way).",
     "Reports are constructed by the harness (probes are not run).")
+chk("C36", "E1", "exploration",
+    "deterministic simulation: in-process pkarr DNS server (real store actor, redb over SimDisk, real HTTP and DNS handlers) with hand-built adversarial packets; marker-based provenance oracle over every answer",
+    "Seeded exploration of publishes over 3 keys (records inside/outside the signer's zone, SOA/NS, path key != signer, bad signature, truncated body) with swarm-randomised batch size, batch time and cache capacity; after every publish all keys x names x types are queried over DNS and pkarr GET: every marked answer record must come from the packet currently stored for the queried key, under its zone, with an allowed type; a rejected publish leaves all answers unchanged.",
+    "Sockets are bypassed (handlers are called in process); store threads run as local tasks of the simulated runtime.")
+chk("C37", "E1", "exploration",
+    "deterministic simulation: in-process pkarr DNS server vs a sequential max-by-(timestamp,payload) model, equal timestamps forced",
+    "Seeded exploration of publish orders with colliding timestamps; after every publish the store's own update report and all served packets/answers are compared with the reference model.",
+    "Update reports are observed at the store's upsert acknowledgement (hook event), since the HTTP handler answers 204 either way.")
+chk("C38", "E1", "exploration",
+    "deterministic simulation: publisher task racing resolver task on the in-process server, seeded yields at the two in-tree schedule points (after the store read in resolve, after the upsert acknowledgement in insert), real-time-order oracle",
+    "Seeded exploration of interleavings of lookups (DNS and pkarr GET) with acknowledged publishes for one key; oracle: a lookup invoked after publish P was acknowledged never reflects a packet older than P, including a final lookup after the system settled.",
+    "Single-threaded interleavings at await points plus the two named schedule points.")
+chk("C39", "E1", "fault_enumeration",
+    "deterministic simulation with exhaustive crash-point enumeration: every prefix of the logged disk writes/syncs of a publish workload is turned into a crash image (unsynced writes kept/dropped/torn by PRNG) and reopened through redb recovery; plus eviction on virtual + simulated wall clock with clock steps",
+    "Per seeded run the live store (real actor, real redb over SimDisk) logs every disk operation; afterwards a crash is simulated after EVERY prefix of the log and both tables of the recovered database are checked: every stored packet is byte-identical to a published one, at least as recent as the newest whose batch commit preceded the crash, and the expiry index equals {(timestamp, key)} of the stored packets. Eviction runs check every removal against the cut-off at removal time and that expired packets are gone after a settle. Exhaustive over crash points per run; runs sampled.",
+    "Non-lying disk (sync persists). Torn writes at 512-byte sector granularity. The store's OS threads are replaced by local tasks (wiring of open() duplicated in verif_open).")
